@@ -21,7 +21,11 @@ from typing import Any, Callable, Iterable
 
 VERIF = Path(__file__).resolve().parent.parent
 REPO = Path(os.environ.get("NAUYACA_REPO", "/repo")).resolve()
-LEAN = VERIF / "lean"
+# Scratch runs against a modified copy of the repository (seeded changes, reverted fixes) must not
+# disturb the shared Lean build or the committed evidence: give them a private copy of lean/ and an
+# output directory.
+LEAN = Path(os.environ.get("NAUYACA_LEAN_DIR", str(VERIF / "lean"))).resolve()
+OUT = Path(os.environ.get("NAUYACA_OUT", str(VERIF))).resolve()
 DRIVER = LEAN / ".lake" / "build" / "bin" / "nvdriver"
 GUARD = "NAUYACA_VERIF"
 ALLOWED_AXIOMS = {"propext", "Classical.choice", "Quot.sound"}
